@@ -11,8 +11,6 @@ From HL7 Require Import Proofs.EscapeFacts Proofs.SplitJoin Proofs.LevelCodec Pr
 Import ListNotations.
 Open Scope bs_scope.
 
-Definition st_fixed (v : str) (e : ec) (s : str) : Prop := leaf_enc v TOLERANT e (Some (unbs "ST")) s = Ok s.
-
 (* Z-segments, ANY index i >= 1 (no bound): the line made of the name, exactly i field separators
    and the value x parses to a segment whose only child is the field Z??_i, whose only component
    has the only subcomponent x; encoding that segment gives exactly that line - the value stands
@@ -67,7 +65,7 @@ Theorem C02_field_position : forall v t, tables_of v = Some t ->
 Proof.
   intros v t Ht e He sn r Hin Ha Hm.
   destruct (shipped_table_facts v t Ht) as [Hst [Hvar _]].
-  destruct (shipped_segment_ok v t sn r Ht Hin Ha Hm) as [Hl [srows [-> [H3 [Hup [Hmsh [Hz [Hc Hrows]]]]]]]].
+  destruct (shipped_segment_ok v t sn r Ht Hin Ha Hm) as [Hl [srows [-> [H3 [Hup [Hmsh [Hz [Hc [Hrows Hnof]]]]]]]]].
   exists srows. split; [reflexivity|]. intros i row inf b x Hi Hn Hr Hdt Hb Hx Hd Hlf.
   exact (field_position t e (leaf_enc v TOLERANT e) He Hst Hvar sn srows i row inf b x
            H3 Hup Hmsh Hz Hl Hc Hrows Hi Hn Hr Hdt Hb Hx Hd Hlf).
@@ -84,6 +82,76 @@ Example C02_field_position_example :
     leaf_enc "2.5" TOLERANT default_ec (Some (unbs "SI")) "12" = Ok (unbs "12") /\
     is_blank "12" = false /\ delim_free default_ec "12".
 Proof. vm_compute. do 3 eexists. repeat split; reflexivity. Qed.
+
+(* ... and every field position whose row is a leaf of type varies (OBX-5, RDT-1, QPD-3 ...): the
+   value is stored as the ST subcomponent of the component VARIES_1 *)
+Theorem C02_field_position_varies : forall v t, tables_of v = Some t ->
+  forall e, ec_ok e ->
+  forall sn r, In (sn, r) (t_segments t) -> sn <> unbs "ANYHL7SEGMENT" -> sn <> unbs "MSH" ->
+  exists srows, r = SSeqIn false srows None /\
+  forall i row inf x,
+    1 <= i -> nth_error srows (pred i) = Some row ->
+    row_ref t row = Some (SLeaf inf) -> i_dt inf = Some (unbs "varies") ->
+    is_blank x = false -> delim_free e x -> st_fixed v e x ->
+    let text := sn ++ repeat (fsep e) i ++ x in
+    exists s f c sb,
+      parse_segment t TOLERANT e (leaf_enc v TOLERANT e) text None = Ok s /\
+      s_children s = [f] /\ f_name f = Some (name_idx sn i) /\ f_dt f = Some (unbs "varies") /\
+      f_children f = [c] /\ c_name c = Some (name_idx VARIES 1) /\
+      c_children c = [sb] /\ sc_value sb = x /\
+      enc_segment t e s false = Ok text.
+Proof.
+  intros v t Ht e He sn r Hin Ha Hm.
+  destruct (shipped_table_facts v t Ht) as [Hst [Hvar _]].
+  destruct (shipped_segment_ok v t sn r Ht Hin Ha Hm) as [Hl [srows [-> [H3 [Hup [Hmsh [Hz [Hc [Hrows Hnof]]]]]]]]].
+  exists srows. split; [reflexivity|]. intros i row inf x Hi Hn Hr Hdt Hx Hd Hlf.
+  exact (field_position_varies t e (leaf_enc v TOLERANT e) He Hst Hvar sn srows i row inf x
+           H3 Hup Hmsh Hz Hl Hc Hrows Hi Hn Hr Hdt Hx Hd Hlf).
+Qed.
+Print Assumptions C02_field_position_varies.
+
+(* Segments whose last defined field is of type varies (RDT, QPD) accept ANY index beyond it (no
+   bound): the value after exactly i field separators parses to the single child <SEG>_i, of type
+   varies, and encodes back to exactly that line. *)
+Theorem C02_open_ended_varies : forall v t, tables_of v = Some t ->
+  forall e, ec_ok e ->
+  forall sn r, In (sn, r) (t_segments t) -> sn <> unbs "ANYHL7SEGMENT" -> sn <> unbs "MSH" ->
+  exists srows, r = SSeqIn false srows None /\
+  forall lrow li i x,
+    nth_error srows (pred (length srows)) = Some lrow -> row_ref t lrow = Some (SLeaf li) ->
+    i_dt li = Some (unbs "varies") ->
+    length srows < i ->
+    is_blank x = false -> delim_free e x -> st_fixed v e x ->
+    let text := sn ++ repeat (fsep e) i ++ x in
+    exists s f c sb,
+      parse_segment t TOLERANT e (leaf_enc v TOLERANT e) text None = Ok s /\
+      s_children s = [f] /\ f_name f = Some (name_idx sn i) /\ f_dt f = Some (unbs "varies") /\
+      f_children f = [c] /\ c_name c = Some (name_idx VARIES 1) /\
+      c_children c = [sb] /\ sc_value sb = x /\
+      enc_segment t e s false = Ok text.
+Proof.
+  intros v t Ht e He sn r Hin Ha Hm.
+  destruct (shipped_table_facts v t Ht) as [Hst [Hvar _]].
+  destruct (shipped_segment_ok v t sn r Ht Hin Ha Hm) as [Hl [srows [-> [H3 [Hup [Hmsh [Hz [Hc [Hrows Hnof]]]]]]]]].
+  exists srows. split; [reflexivity|]. intros lrow li i x Hlast Hlr Hld Hi Hx Hd Hlf.
+  exact (open_ended_position t e (leaf_enc v TOLERANT e) He Hst Hvar sn srows lrow li i x
+           H3 Hup Hmsh Hz Hl Hc Hrows Hlast Hlr Hld Hi (Hnof i Hi) Hx Hd Hlf).
+Qed.
+Print Assumptions C02_open_ended_varies.
+
+(* RDT of v2.5 is such a segment: one defined field, of type varies *)
+Example C02_open_ended_varies_example :
+  let t := Gen.Tables_v2_5.tables in
+  exists srows lrow li,
+    In (unbs "RDT", SSeqIn false srows None) (t_segments t) /\ length srows = 1 /\
+    nth_error srows (pred (length srows)) = Some lrow /\ row_ref t lrow = Some (SLeaf li) /\
+    i_dt li = Some (unbs "varies").
+Proof.
+  cbv zeta. 
+  destruct (slookup "RDT" (t_segments Gen.Tables_v2_5.tables)) as [r|] eqn:E; [|vm_compute in E; discriminate].
+  pose proof (slookup_in _ _ _ E) as Hin. vm_compute in E. injection E as <-.
+  do 3 eexists. split; [exact Hin|]. vm_compute. repeat split; reflexivity.
+Qed.
 
 (* Component j (of base datatype b) of a field whose datatype is a struct D: the value stands
    after exactly i field separators and j-1 component separators, and is found under D_j. *)
@@ -106,7 +174,7 @@ Theorem C02_component_position : forall v t, tables_of v = Some t ->
 Proof.
   intros v t Ht e He sn r Hin Ha Hm.
   destruct (shipped_table_facts v t Ht) as [Hst [Hvar _]].
-  destruct (shipped_segment_ok v t sn r Ht Hin Ha Hm) as [Hl [srows [-> [H3 [Hup [Hmsh [Hz [Hc Hrows]]]]]]]].
+  destruct (shipped_segment_ok v t sn r Ht Hin Ha Hm) as [Hl [srows [-> [H3 [Hup [Hmsh [Hz [Hc [Hrows Hnof]]]]]]]]].
   exists srows. split; [reflexivity|].
   intros i row inf D rows j crow ci b x Hi Hn Hr Hdt HlD Hj Hnc Hrc Hdc Hx Hd Hlf.
   exact (component_position t e (leaf_enc v TOLERANT e) He Hst Hvar sn srows i row inf D rows j crow ci b x
@@ -138,7 +206,7 @@ Theorem C02_subcomponent_position : forall v t, tables_of v = Some t ->
 Proof.
   intros v t Ht e He sn r Hin Ha Hm.
   destruct (shipped_table_facts v t Ht) as [Hst [Hvar _]].
-  destruct (shipped_segment_ok v t sn r Ht Hin Ha Hm) as [Hl [srows [-> [H3 [Hup [Hmsh [Hz [Hc Hrows]]]]]]]].
+  destruct (shipped_segment_ok v t sn r Ht Hin Ha Hm) as [Hl [srows [-> [H3 [Hup [Hmsh [Hz [Hc [Hrows Hnof]]]]]]]]].
   exists srows. split; [reflexivity|].
   intros i row inf D rows j crow ci D2 rows2 k x Hi Hn Hr Hdt HlD Hj Hnc Hrc Hdc HlD2 Hk Hx Hd Hlf.
   exact (subcomponent_position t e (leaf_enc v TOLERANT e) He Hst Hvar sn srows i row inf D rows j crow ci D2 rows2 k x
